@@ -219,9 +219,9 @@ theorem wal_live_is_snapshot_plus_sets (ops : List (Wal.Op T)) (hs : SafeRun ({}
 /-- Non-vacuity of `SafeRun`: a history with a snapshot in the middle taken by a second store
 object while the writer is current. -/
 example : SafeRun ({} : Wal.Ent Bag.bagT)
-    [.add 0 ⟨0, []⟩ false, .cmd 0 (.put 5) false, .snap 1 false, .cmd 0 (.del 5) false, .get 1] := by
+    [.add 0 ⟨0, []⟩ false false, .cmd 0 (.put 5) false, .snap 1 false, .cmd 0 (.del 5) false, .get 1] := by
   refine ⟨absent_empty, trivial, ?_, trivial, trivial, trivial⟩
-  have hcache : (Wal.step (Wal.step ({} : Wal.Ent Bag.bagT) (.add 0 ⟨0, []⟩ false)).1
+  have hcache : (Wal.step (Wal.step ({} : Wal.Ent Bag.bagT) (.add 0 ⟨0, []⟩ false false)).1
       (.cmd 0 (.put 5) false)).1.cache = [(0, ⟨1, [5]⟩)] := rfl
   intro j c hj hc
   rw [hcache] at hc
@@ -236,7 +236,7 @@ object 0 can never catch up and keeps returning revision 0 while a fresh store s
 revision 1. -/
 theorem wal_snapshot_needs_current_caches :
     let e := Wal.run ({} : Wal.Ent Bag.bagT)
-      [.add 0 ⟨0, []⟩ false, .cmd 1 (.put 5) false, .snap 1 false]
+      [.add 0 ⟨0, []⟩ false false, .cmd 1 (.put 5) false, .snap 1 false]
     (match (Wal.getLatest e 0).2 with | .ok v => some (v.revision, v.st) | _ => none) = some (0, []) ∧
     (match Wal.loadFresh e with | .ok v => some (v.revision, v.st) | _ => none) = some (1, [5]) := by
   decide
